@@ -383,21 +383,22 @@ impl PayloadHistory {
 
         // Iterate backwards over the deltas. Skip over those older than we
         // need.
+        //
+        // delta.serial() is the target serial of the delta, serial is the
+        // target serial the caller has. The first delta the caller needs is
+        // thus the one with the target serial following theirs.
+        let next = serial.add(1);
         let mut iter = self.deltas.iter().rev();
-        for delta in &mut iter {
-            // delta.serial() is the target serial of the delta, serial is
-            // the target serial the caller has. So we can skip over anything
-            // smaller.
-            match delta.serial().partial_cmp(&serial) {
-                Some(cmp::Ordering::Greater) => return None,
-                Some(cmp::Ordering::Equal) => break,
-                _ => continue
+        let mut res = loop {
+            let delta = iter.next()?;
+            match delta.serial().partial_cmp(&next) {
+                Some(cmp::Ordering::Less) => continue,
+                Some(cmp::Ordering::Equal) => break delta.clone(),
+                // Either we don’t have the delta following their serial any
+                // more or the serial cannot be compared to ours at all. In
+                // both cases it is not a serial we can produce a delta for.
+                _ => return None
             }
-        }
-
-        let mut res = match iter.next() {
-            Some(delta) => delta.clone(),
-            None => return Some(Arc::new(PayloadDelta::empty(serial))),
         };
         for delta in iter {
             res = Arc::new(res.merge(delta));
